@@ -25,6 +25,7 @@ type SpecConfig struct {
 	PRootPkg         float64
 	PStd             float64
 	PPre             float64 // pre-existing look-alike / foreign files
+	PLineDirective   float64 // a //line directive in front of a declaration (as goyacc, ragel, templ or cgo write them)
 	Base             string
 	AllowFalse       bool
 }
@@ -56,6 +57,7 @@ func DrawSpecConfig(r *Rng, genNames []string, base string) SpecConfig {
 		PRootPkg:         onoff(0.3, 0.5),
 		PStd:             onoff(0.4, 0.5),
 		PPre:             onoff(0.6, 0.7),
+		PLineDirective:   onoff(0.25, 0.35),
 		Base:             base,
 		AllowFalse:       true,
 	}
@@ -373,6 +375,15 @@ func drawDecls(r *Rng, cfg SpecConfig, p *PkgSpec, pi int) {
 		for i := len(rest) - 1; i > 0; i-- {
 			j := r.Intn(i + 1)
 			rest[i], rest[j] = rest[j], rest[i]
+		}
+	}
+	// positions redirected by //line directives: from there on the file reports the name and the lines of
+	// the source it was generated from (a name in the same directory)
+	for fi, f := range files {
+		for di, d := range f.Decls {
+			if (fi > 0 || di > 0) && r.P(cfg.PLineDirective) {
+				d.LineBefore = fmt.Sprintf("%s_src%d.y:%d", strings.TrimSuffix(f.Name, ".go"), di, r.Range(1, 4000))
+			}
 		}
 	}
 	p.Files = files
